@@ -142,7 +142,12 @@ static void observe(obuf_t *o, int slot)
         if (!sa_readable(t, sizeof(*t))) FAIL("INVARIANT", "object-block", k, "object is not a live block");
         obs_str(o, t->src, "src", k); obs_str(o, t->sep, "sep", k);
         ob_printf(o, "q=%d,%d,%d;", t->quote, t->dquote, t->escape);
-        if (t->tokens) { ob_add(o, "tok", 3); obs_container(o, t->tokens, K_LIST_D); } else ob_add(o, "tok=NULL", 8);
+        if (t->tokens) {
+            /* which list class holds the tokens is the tokenizer's business: the list is walked as what its class says it is */
+            spif_class_t tc = sa_readable(t->tokens, sizeof(void *)) ? SPIF_OBJ_CLASS(SPIF_OBJ(t->tokens)) : NULL;
+            int lk = tc == SPIF_CLASS(SPIF_LISTCLASS_VAR(array)) ? K_LIST_A : tc == SPIF_CLASS(SPIF_LISTCLASS_VAR(linked_list)) ? K_LIST_L : K_LIST_D;
+            ob_add(o, "tok", 3); obs_container(o, t->tokens, lk);
+        } else ob_add(o, "tok=NULL", 8);
         break;
     }
     case K_URL: {
@@ -231,7 +236,12 @@ static spif_obj_t make(int k, const op_t *o)
         else if (variant % 4 == 2) r = SPIF_OBJ(spif_str_new_from_num(variant));
         else r = SPIF_OBJ(spif_str_new_from_ptr((spif_charptr_t)t));
         break;
-    case K_USTR: r = variant % 3 == 0 ? SPIF_OBJ(spif_ustr_new()) : SPIF_OBJ(spif_ustr_new_from_ptr((spif_charptr_t)t)); break;
+    case K_USTR:
+        if (variant % 5 == 0) r = SPIF_OBJ(spif_ustr_new());
+        else if (variant % 5 == 1) r = SPIF_OBJ(spif_ustr_new_from_buff((spif_charptr_t)t, (spif_ustridx_t)(strlen(t) + (size_t)(variant % 7))));
+        else if (variant % 5 == 2) r = SPIF_OBJ(spif_ustr_new_from_num(variant));
+        else r = SPIF_OBJ(spif_ustr_new_from_ptr((spif_charptr_t)t));
+        break;
     case K_MBUFF:
         if (variant % 3 == 0) r = SPIF_OBJ(spif_mbuff_new());
         else if (variant % 3 == 1) r = SPIF_OBJ(spif_mbuff_new_from_buff((spif_byteptr_t)o->s, (spif_memidx_t)o->slen, (spif_memidx_t)(o->slen + (size_t)(variant % 5))));
@@ -379,7 +389,10 @@ static void mutate(int slot, const op_t *o)
             probe_hit("extended_mutator");
             break;
         }
-        if (how % 3 == 0) spif_ustr_append_from_ptr(s, (spif_charptr_t)t); else if (how % 3 == 1) spif_ustr_clear(s, 'u'); else spif_ustr_prepend_char(s, 'U');
+        switch (how % 6) {
+        case 0: spif_ustr_append_from_ptr(s, (spif_charptr_t)t); break; case 1: spif_ustr_clear(s, 'u'); break; case 2: spif_ustr_prepend_char(s, 'U'); break;
+        case 3: spif_ustr_append_char(s, 'c'); break; case 4: spif_ustr_prepend_from_ptr(s, (spif_charptr_t)t); break; default: spif_ustr_downcase(s); break;
+        }
         break;
     }
     case K_MBUFF: {
@@ -533,6 +546,15 @@ static void query(int slot, const op_t *o)
         spif_str_index(s, 'a'); spif_str_to_num(s, 10);
         break;
     }
+    case K_USTR: {
+        /* the ustr twins of the allocating queries: what they hand out is the caller's to release, and nothing else may be left */
+        spif_ustr_t s = (spif_ustr_t)x, sub = spif_ustr_substr(s, 0, 2);
+        spif_charptr_t p = spif_ustr_substr_to_ptr(s, (spif_ustridx_t)(how % 3), (spif_ustridx_t)(1 + how % 4));
+        if (sub) spif_ustr_del(sub);
+        if (p) LIB_FREE(p);
+        spif_ustr_index(s, 'a'); spif_ustr_to_num(s, 10); (void)spif_ustr_find_from_ptr(s, (spif_charptr_t)"b");
+        break;
+    }
     case K_MBUFF: {
         long qx = o->na > 2 ? o->a[2] : 0, L = SPIF_MBUFF(x)->len;
         spif_mbuff_t m = SPIF_MBUFF(x), sub = qx ? spif_mbuff_subbuff(m, (spif_memidx_t)(-(1 + (L ? how % L : 0))), (spif_memidx_t)(-(qx % 3))) : spif_mbuff_subbuff(m, 0, 1);
@@ -669,7 +691,10 @@ static void exec_common(const plan_t *p)
             int kind = (int)o->a[1];
             if (obj[s] || kind < 0 || kind >= K_NKINDS) continue;
             obj[s] = make(kind, o); okind[s] = kind;
-            if (!obj[s] && !(o->na > 3 && o->a[3] > 0)) FAIL("MISMATCH", "constructor", kind, "constructor returned NULL");     /* (a stream constructor may give up: C01/C07 judge when) */
+            /* (a stream constructor may give up: C01/C07 judge when; a pattern that does not compile or a text that is no URL may be turned
+               away at construction: neither property says such an object has to exist) */
+            if (!obj[s] && !(o->na > 3 && o->a[3] > 0) && kind != K_REGEXP && kind != K_URL) FAIL("MISMATCH", "constructor", kind, "constructor returned NULL");
+            if (!obj[s]) probe_hit("constructor_refused");
         } else if (!strcmp(k, "it_del")) {
             int q = (int)(o->a[1] % NIT);
             if (held[q]) { SPIF_ITERATOR_DEL(held[q]); held[q] = NULL; probe_hit(obj[held_slot[q]] == held_subject[q] ? "iterator_deleted_before_its_container" : "iterator_deleted_after_its_container"); }
